@@ -161,7 +161,10 @@ class Ctx:
         if z3.is_true(z3.simplify(goal)):
             self.obls.append(Obl(name, text, "unsat", "simplify", 0.0, path_id=self.path_id, label=label))
             return
-        r = solve.prove(self.pc, goal)
+        pc = self.pc
+        if rw:
+            pc = [z3.substitute(f, *rw) for f in pc] + list(getattr(self, "rewrite_facts", []))
+        r = solve.prove(pc, goal)
         model = None
         if r.status == "sat":
             model = r.model
